@@ -187,6 +187,22 @@ func cmdCheck(args []string) int {
 	for _, k := range spec.Functions {
 		res := e.VerifyFunc(k)
 		if res.Err != "" {
+			// The function verified on the unchanged tree (it has baseline obligations) and its
+			// contract no longer binds to the code (a clause names a parameter, a loop or a callee
+			// that has gone): the step the contract constrains is not there any more. Reported as
+			// a failed obligation "<function>.contract-binds", not as an engine fault.
+			verifiedBefore := false
+			for _, n := range baseline[prop] {
+				if strings.HasPrefix(n, k+".") {
+					verifiedBefore = true
+					break
+				}
+			}
+			if verifiedBefore && !*updateBaseline {
+				all = append(all, &Obligation{Name: k + ".contract-binds", Func: k, Kind: "contract-binds",
+					Clause: "the contract of " + k + " no longer binds to the source: " + res.Err, Goal: "false", vc: NewVC(k)})
+				continue
+			}
 			fmt.Printf("UNDECIDED %s: %s\n", k, res.Err)
 			engineFault = true
 			continue
@@ -217,7 +233,7 @@ func cmdCheck(args []string) int {
 	// in props.json).
 	pats := append([]string(nil), spec.Obligations...)
 	for _, f := range spec.Functions {
-		pats = append(pats, f+".loop*", f+".*#loop*", f+".call:*", f+".*#call:*")
+		pats = append(pats, f+".loop*", f+".*#loop*", f+".call:*", f+".*#call:*", f+".contract-binds")
 	}
 	// obligations that are generated but deliberately not claimed by any property (with reasons)
 	var unclaimed []struct{ Pattern, Reason string }
